@@ -235,6 +235,7 @@ type P2PScenario struct {
 	Timeouts   int  // how many timeout timers may fire in one execution
 	Ghost      bool // one more request goes to a peer the network does not know (the send fails)
 	Hung       bool // one more request goes to a peer whose stream open hangs until all other requests returned
+	TwoPeers   bool // the requesters ask two different peers the same question (same procedure, same payload)
 	CancelLate bool // the responder is slow and the canceller waits until every request has been sent: all requesters are cancelled while waiting
 }
 
@@ -249,6 +250,11 @@ func (sc P2PScenario) Body(timeout time.Duration) func() {
 			responder = func(w p2p.ResponseWriter, r *p2p.Request) { net.waitReleased("slow-handler"); EchoHandler(w, r) }
 		}
 		net.AddNode("peerB", timeout, map[string]p2p.RPCHandler{"echo": responder})
+		if sc.TwoPeers {
+			net.AddNode("peerC", timeout, map[string]p2p.RPCHandler{"echo": func(w p2p.ResponseWriter, r *p2p.Request) {
+				w.Write(append([]byte("echoC:"), r.Data...))
+			}})
+		}
 		vsched.TimerHook = func() { net.note("timer") }
 		vsched.TimerBudget = sc.Timeouts
 		ctx, cancel := vsched.WithCancel(context.Background())
@@ -258,12 +264,19 @@ func (sc P2PScenario) Body(timeout time.Duration) func() {
 			i := i
 			g.Go(fmt.Sprintf("requester-%d", i), func() {
 				payload := []byte(fmt.Sprintf("nonce-%d", i))
+				target, prefix := peer.ID("peerB"), "echo:"
+				if sc.TwoPeers {
+					payload = []byte("same-question")
+					if i%2 == 1 {
+						target, prefix = peer.ID("peerC"), "echoC:"
+					}
+				}
 				net.note(fmt.Sprintf("request-%d-start", i))
-				res := a.MP.RequestFrom(ctx, peer.ID("peerB"), "echo", payload)
+				res := a.MP.RequestFrom(ctx, target, "echo", payload)
 				switch {
 				case res.Error() != nil:
 					results[i] = "error:" + res.Error().Error()
-				case string(res.Data()) == "echo:"+string(payload):
+				case string(res.Data()) == prefix+string(payload):
 					results[i] = "ok"
 				default:
 					results[i] = "WRONG:" + string(res.Data())
@@ -373,6 +386,7 @@ func P2PScenarios(maxTimeouts int) []P2PScenario {
 		{Name: "duplicate-responses", Requesters: 1, DupRes: true},
 		{Name: "cancelled-request", Requesters: 1, Cancel: true},
 		{Name: "two-requests-duplicate-responses", Requesters: 2, DupRes: true},
+		{Name: "same-question-to-two-peers", Requesters: 2, TwoPeers: true},
 		{Name: "two-requests-cancelled-while-waiting", Requesters: 2, Cancel: true, CancelLate: true},
 		{Name: "request-with-failing-send", Requesters: 1, Ghost: true},
 		{Name: "request-beside-hung-send", Requesters: 1, Hung: true},
